@@ -568,6 +568,21 @@ example : dohServerName true true id (fun _ => true) [50, 48, 48, 49, 58, 100, 9
     = [50, 48, 48, 49, 58, 100, 98, 56, 58, 58, 49] := by decide
 example : dohEndpointHost true true id (fun _ => true) [50, 48, 48, 49, 58, 100, 98, 56, 58, 58, 49]
     = [91, 50, 48, 48, 49, 58, 100, 98, 56, 58, 58, 49, 93] := by decide
+/-- Non-vacuity of the second fact (the requests go to the endpoint's own host): a
+constructor that drops a written-out default port by replacing the host with
+`URL.Hostname()` (seeded change C18-m15) sends `https://[fd00::53]:443/...` to
+the host `fd00::53`, whose `URL.Hostname()` is `fd00:`, and verifies
+`[2001:db8::8:53]:443` against `2001:db8::8`, another valid address; a host
+name with `:443` is unharmed. With the fact, doh_server_name gives the address
+for every decimal port, the scheme default included. -/
+example : dohServerName false true urlHostname (fun _ => false) [91, 102, 100, 48, 48, 58, 58, 53, 51, 93, 58, 52, 52, 51]
+    = [102, 100, 48, 48, 58] := by decide
+example : dohServerName false true urlHostname (fun _ => false) [91, 50, 48, 48, 49, 58, 100, 98, 56, 58, 58, 56, 58, 53, 51, 93, 58, 52, 52, 51]
+    = [50, 48, 48, 49, 58, 100, 98, 56, 58, 58, 56] := by decide
+example : dohServerName false true urlHostname (fun _ => false) [100, 110, 115, 46, 116, 101, 115, 116, 58, 52, 52, 51]
+    = [100, 110, 115, 46, 116, 101, 115, 116] := by decide
+example : dohServerName true true id (fun _ => false) [91, 102, 100, 48, 48, 58, 58, 53, 51, 93, 58, 52, 52, 51]
+    = [102, 100, 48, 48, 58, 58, 53, 51] := by decide
 
 
 /-! ## SOCKS5 and a configured bootstrap server
